@@ -262,13 +262,14 @@ def two_parameters(ctx):
                              initial_conditions=list(ics), norm_order=2, sim_type="deterministic")
         inf.prepare_inference()
         inf.setup_cost_function()
-        for theta in ([0.5, 2.0], [2.0, 0.5], [0.5, 2.0], [12.0, 2.0], [1.5, 9.0]):
+        # (10.0 and 0.0 are the end points of d's uniform prior: inside its support)
+        for theta in ([0.5, 2.0], [2.0, 0.5], [0.5, 2.0], [12.0, 2.0], [1.5, 9.0], [10.0, 2.0], [0.0, 2.0]):
             rep = {"scenario": "two estimated parameters", "params_to_estimate": ["d", "k"], "prior_declared_as": list(order), "theta": theta}
             ctx.begin_case(rep)
             got = float(inf.cost_function(np.array(theta)))
             ctx.evaluated()
             dv, kv = theta
-            if dv < 0 or dv > 10:
+            if dv < 0 or dv > 10:          # closed interval: the end points belong to the support
                 want = -math.inf
             else:
                 lp = math.log(1 / 10.0) + (-0.5 * ((kv - 1.0) / 2.0) ** 2 - math.log(2.0 * math.sqrt(2 * math.pi)))
